@@ -105,6 +105,7 @@ SITES = {
     'and_then': r'\.\s*and_then\s*\(',
     'chars_all': r'\.\s*chars\s*\(\s*\)\s*\.\s*all\s*\(',
     'entry_or_insert_with': r'\.\s*entry\s*\(',
+    'is_some_and_fn': r'\.\s*is_some_and\s*\(\s*[a-z_]\w*\s*\)',
 }
 
 
@@ -189,6 +190,58 @@ def for_indexed(text, k, by_ref, adapter):
 
 
 TAG = '\x01T?\\d+\x01'
+
+
+def for_rev(text, k):
+    """k-th `for PAT in EXPR.iter().rev() { BODY }`  ==>  index loop from the last element down:
+    `{ let __t4_s = EXPR; let mut __t4_i: usize = __t4_s.len(); while __t4_i > 0 { __t4_i -= 1; let PAT = &__t4_s[__t4_i]; BODY } }`;
+    a tuple pattern `(a, b)` binds references to the fields (`let __t4_e = &__t4_s[__t4_i]; let (a, b) = (&__t4_e.0, &__t4_e.1);`),
+    which is what the default binding mode of the original pattern does."""
+    m = rs.mask(text)
+    hits = [h for h in rs.find_code(text, m, r'\bfor\b', 0, len(text)) if not re.match(r'\s*<', text[h[1]:])]
+    if len(hits) <= k:
+        from vunit import Undecided
+        raise Undecided('T4 for-loop #%d not found' % k)
+    s, e, mm = hits[k]
+    mm2 = re.compile(r'(.*?)\bin\b(.*?)\.\s*iter\s*\(\s*\)\s*\.\s*rev\s*\(\s*\)\s*\{', re.S).match(text, e)
+    if not mm2:
+        from vunit import Undecided
+        raise Undecided('T4 for_rev #%d: not a `for PAT in EXPR.iter().rev()` loop' % k)
+    pat = mm2.group(1).strip()
+    expr = mm2.group(2).strip()
+    ob = mm2.end() - 1
+    body_close = rs.match_close(text, m, ob)
+    body = text[ob + 1:body_close]
+    tm = re.match(r'^\(\s*(\w+)\s*,\s*(\w+)\s*\)$', pat)
+    if tm:
+        bind = 'let __t4_e = &__t4_s[__t4_i]; let (%s, %s) = (&__t4_e.0, &__t4_e.1);' % (tm.group(1), tm.group(2))
+    else:
+        bind = 'let %s = &__t4_s[__t4_i];' % pat
+    new = ('{ let __t4_s = %s; let mut __t4_i: usize = __t4_s.len();\nwhile __t4_i > 0 {\n__t4_i -= 1; %s%s}\n}' % (expr, bind, body))
+    return text[:s] + new + text[body_close + 1:], 'for_rev #%d: `for %s in %s.iter().rev()`' % (k, pat, rs.norm_ws(re.sub(TAG, '', expr)))
+
+
+def let_closure_contract(text, name, label, spec):
+    """`let NAME = |PARAMS| BODY;`  ==>  `let NAME = |PARAMS| -> (__t4_r: bool) ensures //#post:LABEL SPEC { BODY };`
+    (Verus infers no postcondition for a closure; SPEC comes from the template and is checked against the real body)"""
+    m = rs.mask(text)
+    mm = re.compile(r'\blet\s+' + re.escape(name) + r'\s*=(?:\s|' + TAG + r')*\|([^|]*)\|').search(text)
+    if not mm:
+        from vunit import Undecided
+        raise Undecided('T4 let_closure_contract: no `let %s = |..| ..;`' % name)
+    j = mm.end()
+    while j < len(text):
+        if m[j] == rs.CODE:
+            c = text[j]
+            if c in '([{':
+                j = rs.match_close(text, m, j) + 1
+                continue
+            if c == ';':
+                break
+        j += 1
+    body = text[mm.end():j]
+    new = '%s -> (__t4_r: bool)\n    ensures\n        //#post:%s\n        %s\n{ %s }' % (text[mm.start():mm.end()], label, spec, body.strip())
+    return text[:mm.start()] + new + text[j:], 'let_closure_contract: closure `%s` given the contract `%s`' % (name, spec[:140])
 
 
 def let_init(text, var, newexpr):
@@ -314,6 +367,32 @@ def closure_contract(text, k, name, label, params, spec):
         k, orig_params, name, params, spec[:140])
 
 
+def guard_to_if(text, k):
+    """k-th match arm with a guard and a block body, `PAT if G => { BODY }` directly followed by the final wildcard arm
+    `_ => W` (W a block-free expression): ==> `PAT => if G { BODY } else { W }`. When PAT matches and G fails, Rust falls
+    through to the following arms; with only the wildcard following, that is W. (This Verus loses the frame of a `&mut`
+    borrowed inside a guarded arm on the fall-through path.) Anything else between the two arms: undecided."""
+    m = rs.mask(text)
+    WS = r'(?:\s|' + TAG + r')*'
+    hits = list(rs.find_code(text, m, r'\bif\b[^{};]*?=>' + WS + r'\{', 0, len(text)))
+    if len(hits) <= k:
+        from vunit import Undecided
+        raise Undecided('T4 guard_to_if #%d: no guarded arm with a block body' % k)
+    s_, e_, mm = hits[k]
+    ob = e_ - 1
+    cb = rs.match_close(text, m, ob)
+    arrow = text.rindex('=>', s_, e_)
+    guard = text[s_ + 2:arrow].strip()
+    body = text[ob:cb + 1]
+    mm2 = re.compile(WS + r',?' + WS + r'_' + WS + r'=>' + WS + r'([^{},;]+?)' + WS + r',?' + WS + r'\}').match(text, cb + 1)
+    if not mm2:
+        from vunit import Undecided
+        raise Undecided('T4 guard_to_if #%d: the guarded arm is not directly followed by a final `_ => expr` arm' % k)
+    w = mm2.group(1).strip()
+    new = '=> if %s %s else { %s }' % (guard, body, w)
+    return text[:s_] + new + text[cb + 1:], 'guard_to_if #%d: guard `%s` moved into the arm, falling through to the wildcard value `%s`' % (k, rs.norm_ws(re.sub(TAG, '', guard)), w)
+
+
 def split_or_guard(text):
     """`Ctor(A | B) if G => { BODY }`  ==>  `Ctor(A) if G => { BODY } Ctor(B) if G => { BODY }` for every such arm
     (Verus does not support an or-pattern together with a match guard; the alternatives bind nothing)."""
@@ -398,6 +477,11 @@ def apply(text, args):
             raise T4Error('or_insert_with default is not an effect-free expression: %s' % rs.norm_ws(clean_body)[:80])
         new = '%s.entry_or_insert(%s, %s)' % (recv.rstrip(), key.strip(), body.strip())
         return text[:rstart] + new + text[close2 + 1:], 'entry_or_insert_with #%d: `%s`.entry(%s).or_insert_with(|| %s)' % (k, recv_clean, rs.norm_ws(key), rs.norm_ws(re.sub('\x01T?\\d+\x01', '', body)))
+    if kind == 'is_some_and_fn':
+        # X.is_some_and(f) with `f` a closure bound to a name  ==>  match X { Some(v) => f(v), None => false }
+        fname = re.search(r'\(\s*([a-z_]\w*)\s*\)$', text[s:e]).group(1)
+        new = '(match %s { Some(__t4_v) => %s(__t4_v), None => false })' % (recv.strip(), fname)
+        return text[:rstart] + new + text[e:], 'is_some_and_fn #%d: `%s`.is_some_and(%s)' % (k, recv_clean, fname)
     if kind == 'map_err_opaque':
         # X.map_err(F): the error value is irrelevant to every contract -> opaque error of the unit
         close = rs.match_close(text, m, e - 1)
